@@ -493,6 +493,11 @@ def configs(tier, rng):
            kwargs=dict(lattice_sizes=3, units=2, num_terms=1, monotonicities=[1, 1], output_min=0.0)),
       dict(module='rtl_layer', cls='RTL', input_shape={'unconstrained': [None, 1], 'increasing': [None, 2]},
            kwargs=dict(num_lattices=2, lattice_rank=2, output_min=0.0, output_max=1.0, random_seed=3)),
+      # groups of lattices without any monotone input still carry the output bounds
+      dict(module='rtl_layer', cls='RTL', input_shape={'unconstrained': [None, 3]},
+           kwargs=dict(num_lattices=2, lattice_rank=2, output_min=0.0, output_max=1.0, random_seed=1)),
+      dict(module='rtl_layer', cls='RTL', input_shape={'unconstrained': [None, 3], 'increasing': [None, 1]},
+           kwargs=dict(num_lattices=3, lattice_rank=2, output_max=2.0, random_seed=2)),
   ]
   for lj in layer_jobs:
     jobs.append(('layer', lj))
